@@ -186,6 +186,7 @@ def explore(ctx: Ctx, strategy, run_one, max_examples: int, salt=0, shrink=None)
                 stats.excluded_known[entry['sig']] = stats.excluded_known.get(entry['sig'], 0) + 1
                 stats.evaluations += 1
                 return
+            holder.setdefault('observed', (exc, case))
             raise
         for name in labels:
             stats.label(name)
@@ -203,7 +204,17 @@ def explore(ctx: Ctx, strategy, run_one, max_examples: int, salt=0, shrink=None)
         stats.violations.append(
             {'property': exc.prop, 'sig': exc.sig, 'msg': exc.msg, 'case': case, 'log': getattr(exc, 'log', None)}
         )
-    except Exception:
+    except Exception as err:
+        if type(err).__name__ in ('FlakyFailure', 'Flaky') and 'observed' in holder:
+            # the violation was observed on real files but the immediate re-run of the same case did not show it again
+            # (something outside the harness's control differed, e.g. wall-clock seconds seen by rsync): the observation
+            # stands and is reported, marked as not reproduced
+            exc, case = holder['observed']
+            stats.violations.append(
+                {'property': exc.prop, 'sig': exc.sig, 'msg': exc.msg + ' [observed once; not reproduced by the immediate re-run]',
+                 'case': case, 'log': getattr(exc, 'log', None), 'not_reproduced': True}
+            )
+            return
         # harness error: keep the case that triggered it for debugging
         os.makedirs(os.path.join(OUT_DIR, 'harness'), exist_ok=True)
         with open(os.path.join(OUT_DIR, 'harness', f'{ctx.prop}-shard{ctx.shard}.json'), 'w', encoding='utf8') as fhandle:
